@@ -204,16 +204,22 @@ CLAIMS['C11'] = dict(
          "identity map with valid indices.",
     technique='contract-based deductive verification (symbolic execution of the real AST with loop invariant and callee contracts, z3 E-matching) + bounded enumeration of identity maps')
 CLAIMS['C13'] = dict(
-    category='other',
+    category='proof',
     text="Record-level proof on the real AST of Atoms.save_lmpdat (file object recording every write, structure of arbitrary size, both atom "
          "styles, scenarios with everything present / everything absent): count lines state the lengths, type-count lines state the table sizes and "
          "are written iff positive, box lines state 0..cell[i][i], the tilt line cell[1][0], cell[2][0], cell[2][1] and is written exactly for "
          "non-orthorhombic cells, sections appear in LAMMPS order, and every record of Masses / * Coeffs / Atoms / Bonds / Angles / Dihedrals / "
          "Impropers carries the 1-based id of its position, the 1-based type and atom ids, charge, molecule id and coordinates of that item in the "
-         "order of the style. Parsing, the round trip and the byte-identical rewrite are only checked with a stated bound: the text is parsed by an "
-         "independent reader, re-read with mofun and re-written to a fixed point (105 generated files quick, incl. partly tilted and 1e-5 tilts).",
-    note="Level 'other': the reader and the whole-file round trip are bounded. Format strings and str.split are not interpreted.",
-    technique='contract-based deductive verification of the writer records (symbolic execution with a recording file object, z3) + bounded round trip with an independent reader')
+         "order of the style. Reader side: the decoding statements of load_lmpdat (style switch, get_types_tups) are executed on token arrays "
+         "carrying exactly what the writer was proved to emit; proved for both styles and all combinations of empty / non-empty sections that "
+         "reading back yields the structure's type ids, molecule groups, charges, positions and every term with its type and atoms "
+         "(decode(encode(item)) == item: column order and 1-based / 0-based shifts agree). The line reader (sections, comments, str.split), "
+         "coefficient strings token for token, masses / labels and the byte-identical rewrite are only checked with a stated bound: the text is "
+         "parsed by an independent reader, re-read with mofun and re-written to a fixed point (105 generated files quick, both styles, contiguous "
+         "and sparse molecule ids, partly tilted and 1e-5 tilts).",
+    note="Format strings and str.split are not interpreted: the bridge 'the numeric tokens of a record line are the numbers formatted into it' is an "
+         "assumption (exercised by the bounded stage); np.array(dtype=int) exact on integral columns; A2.",
+    technique='contract-based deductive verification of the writer records and of the reader decoding statements with a record-level round-trip lemma (z3) + bounded round trip with an independent reader')
 CLAIMS['C15'] = dict(
     category='other',
     text="Reader glue of load_p1_cif proved against an abstract block: a file is rejected iff it carries a space-group name other than P1 / 'P 1' "
